@@ -261,6 +261,8 @@ def check(P, R, tier):
     todo = [("ymd", "b", "__ymd_add_b"), ("yd", "b", "__yd_add_b"), ("ywd", "b", "__ywd_add_b"), ("ymcw", "b", "__ymcw_add_b")]
     nad = adddecode.run_parallel(R, tu, "RF2-add", todo, every=(tier == "thorough"), jobs=14)
     R.floor("RF2-add", "decoded (start, count) points of the business-day adders", nad, 150000)
+    nadn = adddecode.run_daynumbers_b(R, tu, "RF2-add")
+    R.floor("RF2-add", "decoded (start, count) points of the business-day adder on day numbers", nadn, 2000)
     import bizdecode
     nbz = bizdecode.run_parallel(R, tu, "RF2-biz", jobs=14)
     nbz += bizdecode.run_history(R, tu, "RF2-biz-hist")
